@@ -104,6 +104,10 @@ def judge_trace(ctx, events, owners, label):
     bad = {b["line"] for b in r.lines.get("BAD", [])}
     for i, e in enumerate(events):
         tlc_bad = (i + 1) in bad
+        if e.get("go_bad") and str(e.get("key", "")).startswith("panic"):
+            # a panic inside FindFeatures / Matches is an observation of its own, whatever the logged lists say
+            ctx.fail(e["key"], e.get("what", ""), {"owner": owners[i], "event": e})
+            continue
         if tlc_bad != bool(e.get("go_bad")):
             raise Inconclusive("%s: TLC and the adapter disagree on event %d (TLC bad=%s, adapter bad=%s): %s" % (
                 label, i + 1, tlc_bad, e.get("go_bad"), json.dumps(e)[:600]))
@@ -122,7 +126,7 @@ def judge_trace(ctx, events, owners, label):
 def end_to_end(ctx, binary):
     """Part (b)."""
     # chains of real cells at real levels
-    ccases = [{"id": i, "seed": ctx.seed, "n": ctx.pick(2, 6)} for i in range(ctx.pick(4, 24))]
+    ccases = [{"id": i, "seed": ctx.seed, "n": ctx.pick(2, 6)} for i in range(ctx.pick(4, 16))]
     vs = ctx.run_cases(binary, "chain", ccases, timeout_ms=60000, name="chain")
     events, owners = [], []
     for v in vs:
@@ -138,15 +142,18 @@ def end_to_end(ctx, binary):
     judge_trace(ctx, events, owners, "chain")
 
     # worlds x queries
-    classes = ["tiny", "boundary", "crossface", "large", "huge"]
-    worlds = ctx.pick(["basic", "overlay", "mutable", "layered", "basic", "overlay", "mutable", "compact"],
-                      ["basic", "overlay", "mutable", "layered", "compact"])
-    n = ctx.pick(32, 400)
-    nq = ctx.pick(32, 60)
+    classes = ["tiny", "boundary", "crossface", "large", "huge", "tolerance"]
+    worlds = ["basic", "overlay", "mutable", "layered", "compact"]
+    # every (class, world) pair; the compact build is the slow one, so the quick tier keeps three of its classes
+    pairs = [(c, w) for w in worlds for c in classes]
+    if ctx.quick:
+        pairs = [p for p in pairs if p[1] != "compact" or p[0] in ("boundary", "crossface", "huge")]
+    n = ctx.pick(len(pairs), 240)
+    nq = ctx.pick(32, 48)
     cases = []
     for i in range(n):
-        cases.append({"id": i, "seed": ctx.seed, "class": classes[i % len(classes)],
-                      "world": worlds[(i // len(classes)) % len(worlds)], "nq": nq})
+        c, w = pairs[i % len(pairs)]
+        cases.append({"id": i, "seed": ctx.seed, "class": c, "world": w, "nq": nq})
     vs = ctx.run_cases(binary, "e2e", cases, timeout_ms=180000, name="e2e", total_timeout=3000)
     events, owners = [], []
     for v in vs:
@@ -215,7 +222,7 @@ def run(ctx):
              "levels 0..3 of two faces, checks the lemma for all pairs, and each covering is executed on the real "
              "TokensForCovering / RewriteSpatialQuery (token sets compared with the specification; the lemma re-evaluated "
              "on the real token sets). (b) chains of real cells at all level pairs 0..30 and seeded worlds (tiny, "
-             "cell-boundary, cross-face, large, face-sized extents; basic, mutable, mutable-overlay, static-overlay, compact worlds) x queries "
+             "cell-boundary, cross-face, large, face-sized extents, and a point and a path 0.6 mm apart across a cell edge; basic, mutable, mutable-overlay, static-overlay, compact worlds) x queries "
              "(cap, cells, point, polyline, multipolygon, intersecting-feature, also under an intersection with a tag "
              "query); every event validated by TLC (SpatialTrace.tla). distinct = distinct coverings + distinct "
              "(feature level, query level) chain pairs + distinct selective (world, query) pairs (some but not all "
